@@ -3,6 +3,7 @@ import RactorModel.Lemmas.FactoryCountW
 import RactorModel.Lemmas.FactorySlotInst
 import RactorModel.Lemmas.FactoryHandler
 import RactorModel.Lemmas.FactoryStop
+import RactorModel.Lemmas.FactoryActors
 
 /-!
 # C13 — Factory: every job meets exactly one fate, never runs twice
@@ -135,6 +136,35 @@ theorem dispatchJob_to_dead_keeps_job (p : WP) (e : Env) (j : Job) (a : Actor)
   unfold WP.dispatchJob Env.cast
   simp [ha, hdead]
 
+/-- (at most one job per worker death, ACTOR level — `_partial`: finding F4 excluded by
+`noStaleRun`) For every configuration, EVERY sequence of operations in which no worker is killed while
+one of its completion reports is still unprocessed, and every instant `t` at which an operation is
+applied: whichever live worker actor dies now (kill, Err, panic), at most ONE job is lost with it —
+the log grows by at most one `lost` event, the one job that incarnation held (running or in its
+mailbox). Workers that exit because the factory told them to stop hold nothing at all
+(`stopped_workers_hold_nothing_partial`). The unconditional statement is false: witness `f4Steps`
+below (one death loses jobs 2 and 3). -/
+theorem one_job_lost_per_death_partial (c : CaseCfg) (steps : List Step) (t : Nat)
+    (hns : noStaleRun (init c) steps = true) :
+    let w := W.advanceTo t (advanceFuel ((init c).runSteps steps) t) ((init c).runSteps steps)
+    w.stopped = false → ∀ aid a, w.env.getActor aid = some a → a.alive = true →
+      ∃ l, (w.env.die aid).log = w.env.log ++ l ∧ l.length ≤ 1 ∧ ∀ ev ∈ l, ∃ id, ev = Ev.lost aid id := by
+  intro w hs aid a g hal
+  have hle := ((j_at c steps t hns).core hs).held_le_one g hal
+  refine ⟨a.heldJobs.map (fun j => Ev.lost aid j.id), (die_loses_only_held w.env a aid g hal).1, by simpa using hle, ?_⟩
+  intro ev hev
+  obtain ⟨j, _, rfl⟩ := List.mem_map.mp hev
+  exact ⟨j.id, rfl⟩
+
+/-- … and a live worker actor that is no pool slot's worker any more (retired by a shrink or after
+its last job while draining) is idle and has been told to stop: its exit loses nothing. -/
+theorem stopped_workers_hold_nothing_partial (c : CaseCfg) (steps : List Step) (hns : noStaleRun (init c) steps = true) :
+    let w := (init c).runSteps steps
+    w.stopped = false → ∀ aid a, w.env.getActor aid = some a → a.alive = true →
+      (∀ p ∈ w.pool, p.actor ≠ aid) → a.heldJobs = [] ∧ a.stopReq = true := by
+  intro w hs aid a g hal hn
+  exact ((j_always c steps hns).core hs).free aid a g hal hn
+
 /-! ### Non-vacuity: a concrete run (queuer, one worker): job 1 handled, job 2 running -/
 def exCase : CaseCfg :=
   { cfg := { router := .q, prioQueue := false, hasHandler := true, table := [], hasCC := false }, n := 1, disc := none, rl := none }
@@ -144,6 +174,8 @@ def exSteps : List Step :=
 example : accepted 1 (init exCase) exSteps = 1 ∧ exSteps.countP (isDispatchOp 1) ≤ 1 := by decide
 example : cTerm 1 ((init exCase).runSteps exSteps).env.log = 1 := by decide
 example : cj 2 (((init exCase).runSteps exSteps).env.actors.flatMap Actor.heldJobs) = 1 := by decide
+/-- the hypotheses of the actor-level theorems hold of this run (a live worker holds job 2) -/
+example : noStaleRun (init exCase) exSteps = true ∧ ((init exCase).runSteps exSteps).stopped = false := by decide +kernel
 
 /-! ### Finding F4 on its concrete witness: "at most one job per worker death" is FALSE of the code
 
@@ -304,6 +336,8 @@ end C13
 #print axioms C13.accepted_job_is_somewhere
 #print axioms C13.no_job_from_nowhere
 #print axioms C13.one_job_per_death_partial
+#print axioms C13.one_job_lost_per_death_partial
+#print axioms C13.stopped_workers_hold_nothing_partial
 #print axioms C13.die_loses_only_held
 #print axioms C13.dispatchJob_to_dead_keeps_job
 #print axioms C13.handler_sync
